@@ -36,3 +36,41 @@ Proof.
   destruct R as (R1 & R2). apply Z.leb_le in R1. apply Z.ltb_lt in R2.
   exact (H c (fails_in_all_codes tr c Hc) (conj R1 R2) Hc).
 Qed.
+
+(* ---------- assembly of the per-property theorems ---------- *)
+From Ivv Require Import Core.CoreRel Core.CoreCodes2 Core.CorePhase2Fd Core.CorePhase2Time Core.CorePhase2TimeC09 Core.CorePhase2Ei.
+
+Lemma range_no_code : forall lo hi tr c, none_in lo hi (mon_fails tr) = true -> lo <= c < hi -> ~ In c (mon_fails tr).
+Proof. intros lo hi tr c H R Hin. exact (none_in_no_code lo hi _ c H Hin R). Qed.
+
+(* Every failure code of the tracker monitor except 711 (busy polling, proof in progress) is excluded on every
+   well-formed scenario: on every poll method and under every fault set. *)
+Theorem core_all_but_711 : forall sc, wf_scenario sc -> forall c, In c (mon_fails (run_scenario sc)) -> c = 711.
+Proof.
+  intros sc WF c Hin.
+  pose proof (fails_in_all_codes _ c Hin) as A.
+  pose proof (core_mon_C01 sc WF) as H1. unfold mon_C01 in H1.
+  pose proof (core_mon_C02 sc WF) as H2. unfold mon_C02 in H2.
+  destruct (core_mon_C03 sc WF) as (H3 & _). unfold mon_C03 in H3.
+  destruct (core_mon_C04 sc WF) as (H4 & _). unfold mon_C04 in H4.
+  pose proof (core_mon_C06 sc WF) as H6. unfold mon_C06 in H6. apply andb_true_iff in H6. destruct H6 as (H6 & _).
+  pose proof (core_mon_C09 sc WF) as H9. unfold mon_C09 in H9. apply andb_true_iff in H9. destruct H9 as (H9 & _).
+  pose proof (core_mon_C15 sc WF) as H15. unfold mon_C15 in H15.
+  destruct (core_mon_C18 sc WF) as (H18 & _). unfold mon_C18 in H18.
+  pose proof (codes_acct sc WF) as HA. pose proof (codes_handlers sc WF) as HH.
+  unfold all_codes in A. cbn [In] in A.
+  repeat (destruct A as [A|A]; [subst c;
+    first [ reflexivity
+          | exfalso; match goal with Hc : In ?k _ |- _ => first
+              [ apply (range_no_code 100 200 _ k H1); [split; [discriminate|reflexivity]|exact Hc]
+              | apply (range_no_code 200 300 _ k H2); [split; [discriminate|reflexivity]|exact Hc]
+              | apply (range_no_code 300 400 _ k H3); [split; [discriminate|reflexivity]|exact Hc]
+              | apply (range_no_code 400 500 _ k H4); [split; [discriminate|reflexivity]|exact Hc]
+              | apply (range_no_code 600 700 _ k H6); [split; [discriminate|reflexivity]|exact Hc]
+              | apply (range_no_code 900 1000 _ k H9); [split; [discriminate|reflexivity]|exact Hc]
+              | apply (range_no_code 1500 1600 _ k H15); [split; [discriminate|reflexivity]|exact Hc]
+              | apply (range_no_code 1800 1900 _ k H18); [split; [discriminate|reflexivity]|exact Hc]
+              | apply (HA _ Hc); cbn [In]; tauto
+              | apply (HH _ Hc); cbn [In]; tauto ] end ] |]).
+  contradiction.
+Qed.
